@@ -36,6 +36,7 @@ func H04_real_faults() {
 	agent.failAt = vChoose(8, "agent-fault-at") - 1
 
 	err := gensign.Run(context.Background(), param, []gensign.Handler{h}, signer)
+	vRunGoroutines() // whatever the run left behind in the background has happened by now
 
 	faultHit := agent.failAt >= 0 && agent.ops > agent.failAt
 	certAdds := 0
